@@ -280,7 +280,22 @@ def run(prop, tier, seed, t0):
         corner_a, corner_b = (True, False, False), (False, True, True)
         configs = [(s, v) for s in singles + [none_set, all_set] for v in (corner_a, corner_b)]
         configs += [(s, v) for s in (none_set, all_set) for v in VARIANTS if v not in (corner_a, corner_b)]
-        lattice = "each of the 14 quantity features alone, none and all x the two opposite variant corners (std,f64,no serde) and (no-std,fpdec,serde), plus none/all x the other 6 variants"
+        # every pair of quantity features (dependency-closed), each under one of the four pairs of opposite variant
+        # corners in rotation, so that a break needing two features together is met on every change
+        known = set(singles) | {none_set, all_set}
+        pair_sets = []
+        for a, b in itertools.combinations(qf, 2):
+            c = frozenset(closure([a, b], table) & set(qf))
+            if c not in known:
+                known.add(c)
+                pair_sets.append(c)
+        for i, s in enumerate(pair_sets):
+            v = VARIANTS[i % 4]
+            opposite = tuple(not x for x in v)
+            configs += [(s, v), (s, opposite)]
+        lattice = ("each of the 14 quantity features alone, none and all x the two opposite variant corners (std,f64,no serde) and "
+                   "(no-std,fpdec,serde), plus none/all x the other 6 variants, plus the %d further closures of PAIRS of quantity "
+                   "features, each under two opposite variant corners (rotating)" % len(pair_sets))
     # de-duplicate (a single feature's closure may coincide with another set)
     seen = set()
     configs = [c for c in configs if not (c in seen or seen.add(c))]
@@ -384,7 +399,7 @@ def run(prop, tier, seed, t0):
                 violation("C19/results-depend-on-other-features/%s-vs-%s" % (vname(v), vname(other)), {"variant": vname(other), "features": sorted(all_set)},
                           "%s: %s | %s: %s" % (vname(v), diff[0], vname(other), diff[1]),
                           "byte-identical corpus output whether or not std / serde are enabled", "corpus all")
-    if not violations and (stats["configurations"] < (40 if tier == "quick" else 1000) or stats["corpus_runs"] < 14):
+    if not violations and (stats["configurations"] < (150 if tier == "quick" else 1000) or stats["corpus_runs"] < 14):
         raise Machinery("vacuity guard: C19 explored too little: %s" % stats)
     coverage = {
         "exhaustive": True,
